@@ -50,6 +50,11 @@ def generate(rng, tier):
                 setup.append({"op": "write", "path": name, "c": gen.unique_content(rng), "fault": "add_file"})
                 late.append(name)
         setup.append(scen.cmd("create", "@R", *gen.fmt_args(f1 if rng.random() < 0.4 else gen.pick_formats(rng, 1, 2))))
+    if rng.random() < 0.2 and any(f.startswith("D1/") for f in gen.tree_files(tree) + late):
+        # D1 becomes a nested history AFTER the parent recorded its files; the parent is sealed once more
+        setup += [scen.gen_advance(rng), scen.cmd("create", "@R/D1", *gen.fmt_args(f1)), scen.gen_advance(rng),
+                  scen.cmd("create", "@R", *gen.fmt_args(f1))]
+        env["_nested_d1"] = True
     setup.append(scen.gen_advance(rng))
     files = gen.tree_files(tree) + late
     dirs = [""] + gen.tree_dirs(tree)
@@ -57,8 +62,11 @@ def generate(rng, tier):
     taken = set(tree)
     moved = set()
     taken |= set(late)
+    nested_d1 = env.pop("_nested_d1", False)
     for _ in range(rng.randint(1, 4)):
         cands = [f for f in files if f not in moved]
+        if nested_d1:
+            cands = [f for f in cands if f.startswith("D1/")] or cands
         if late and rng.random() < 0.5:
             cands = [f for f in late if f not in moved] or cands
         if empty and empty not in moved and rng.random() < 0.6:
@@ -67,7 +75,8 @@ def generate(rng, tier):
             break
         src = rng.choice(cands)
         k = rng.random()
-        if k < 0.4:
+        if k < 0.4 or nested_d1:
+            # (with a nested history in play every file stays inside its own history: in-place renames only)
             dst = os.path.join(os.path.dirname(src), "ren_%d%s" % (rng.randrange(99), rng.choice(["", ".mov", " x"])))
             kind = "in-place"
         elif k < 0.7:
@@ -98,7 +107,8 @@ def generate(rng, tier):
         cands = [f for f in files if f not in moved and f not in taken - set(tree)]
         rng.shuffle(cands)
         for src in cands[: rng.randint(1, 2)]:
-            dst = os.path.normpath(os.path.join(rng.choice(dirs), "r2_%d" % rng.randrange(99)))
+            # (every file stays inside its own history: with a nested history in play rename in place)
+            dst = os.path.normpath(os.path.join(os.path.dirname(src) if nested_d1 else rng.choice(dirs), "r2_%d" % rng.randrange(99)))
             if dst in taken:
                 continue
             taken.add(dst)
@@ -180,26 +190,35 @@ def execute(sc, ctx):
         ctx.violate({"kind": "renamed-file-reported-missing"}, f"{sc['dr']}: reports missing {sorted(missing)}; {desc0}")
         return
     newm = [k for k in scen.all_ascmhl_files(w.base) if k not in pre_names and k.endswith(".mhl")]
-    if len(newm) != 1:
+    if not newm:
         ctx.violate({"kind": "unexpected-manifests"}, f"{newm}")
         return
-    m = observe.read_manifest(os.path.join(w.base, newm[0]))
+    # records of all manifests written by this run (root and nested histories), keyed by path relative to the root
     recs = {}
-    for rec in m["files"]:
-        recs.setdefault(rec["path"], []).append(rec)
+    claims = []
+    for k in newm:
+        mp = os.path.join(w.base, k)
+        hroot = os.path.dirname(os.path.dirname(mp))
+        m = observe.read_manifest(mp)
+        for rec in m["files"]:
+            rp = os.path.relpath(os.path.join(hroot, rec["path"]), w.root)
+            prev = None if rec["previousPath"] is None else os.path.relpath(os.path.join(hroot, rec["previousPath"]), w.root)
+            recs.setdefault(rp, []).append(prev)
+            if prev is not None:
+                claims.append((rp, prev))
     for old, new in rmap.items():
         got = recs.get(new, [])
         if len(got) != 1:
             ctx.violate({"kind": "renamed-file-record-count", "cause": str(len(got))}, f"{new!r}: {len(got)} records; {desc0}")
             return
-        if got[0]["previousPath"] != old:
-            ctx.violate({"kind": "wrong-previous-path", "cause": "missing" if got[0]["previousPath"] is None else "value",
+        if got[0] != old:
+            ctx.violate({"kind": "wrong-previous-path", "cause": "missing" if got[0] is None else "value",
                          "fmt_same": sorted(f1) == sorted(f2)},
-                        f"{new!r}: previousPath {got[0]['previousPath']!r}, expected {old!r}; {desc0}; formats {f1}->{f2}")
+                        f"{new!r}: previousPath {got[0]!r}, expected {old!r}; {desc0}; formats {f1}->{f2}")
             return
-    for rec in m["files"]:
-        if rec["previousPath"] is not None and rmap.get(rec["previousPath"]) != rec["path"]:
-            ctx.violate({"kind": "spurious-previous-path"}, f"{rec['path']!r} claims previous path {rec['previousPath']!r}; {desc0}")
+    for rp, prev in claims:
+        if rmap.get(prev) != rp:
+            ctx.violate({"kind": "spurious-previous-path"}, f"{rp!r} claims previous path {prev!r}; {desc0}")
             return
     # afterwards the tree is accepted
     for name in ("verify", "diff", "create"):
